@@ -87,6 +87,7 @@ type PureFunc struct {
 	Params []Binder
 	Result TypeExpr
 	Body   Expr // nil for uninterpreted (ghost func)
+	Content string   // "content" / "injective": the ghost function of one slice argument depends only on (is determined by) the slice's elements
 	Reads  []string // heap components an uninterpreted ghost function depends on (ghost state)
 	Opaque bool // uninterpreted symbol with a definitional axiom (E-matching anchor)
 	Pkg    string
@@ -220,6 +221,14 @@ func (cs *ContractSet) LoadContractFile(path, pkgPath string) error {
 				return fmt.Errorf("%s:%d: expected 'func' after %s", path, rc.line, kw)
 			}
 			var reads []string
+			content := ""
+			for _, suf := range []string{" injective content", " content"} {
+				if kw == "ghost" && strings.HasSuffix(r2, suf) {
+					content = strings.TrimSpace(suf)
+					r2 = strings.TrimSpace(strings.TrimSuffix(r2, suf))
+					break
+				}
+			}
 			if k := strings.Index(r2, " reads "); k > 0 && kw == "ghost" {
 				for _, x := range splitTop(r2[k+7:]) {
 					reads = append(reads, strings.TrimSpace(x))
@@ -231,6 +240,7 @@ func (cs *ContractSet) LoadContractFile(path, pkgPath string) error {
 				return fmt.Errorf("%s:%d: %v", path, rc.line, err)
 			}
 			pf.Reads = reads
+			pf.Content = content
 			pf.Pkg, pf.File, pf.Line = pkgPath, path, rc.line
 			pf.Opaque = kw == "opaque"
 			if kw == "ghost" && pf.Body != nil {
